@@ -13,6 +13,7 @@ import (
 	"encoding/hex"
 	"encoding/json"
 	"fmt"
+	"math/big"
 	"github.com/cosmos/cosmos-sdk/codec"
 	"sort"
 	"strings"
@@ -153,6 +154,10 @@ func (w *World) initFrom(appState []byte, height int64) (*Node, string) {
 // block must not do what the exporting chain would not do: reject orders whose time limit has not
 // passed, or make a later claim pay a period that was already settled before the export.
 func (w *World) importKeepingGenesisTime(raw []byte, height int64) {
+	w.importAtGenesisTime(raw, height, "C15")
+}
+
+func (w *World) importAtGenesisTime(raw []byte, height int64, prop string) {
 	w.Probe("c15.import-keeping-genesis-time")
 	gt := time.Unix(GenesisTS, 0).UTC()
 	n := &Node{Idx: 102, Cfg: DefaultRefCfg(), DB: newLeakDB(dbm.NewMemDB()), AppOpts: appOptsOf(&w.T.Knobs)}
@@ -163,13 +168,18 @@ func (w *World) importKeepingGenesisTime(raw []byte, height int64) {
 	}
 	hdr := MakeHeader(height, gt, nil)
 	if p, _ := safely(func() { n.App.BeginBlock(abci.RequestBeginBlock{Header: hdr, LastCommitInfo: LastCommit()}) }); p != "" {
-		w.Violate("C15", "C15/imported-chain-halts/first-block-at-genesis-time", "the first block (stamped with the unchanged genesis_time) after import at %d panics: %s", w.Ref.Height, trunc(p, 300))
+		if prop == "C15" {
+			w.Violate("C15", "C15/imported-chain-halts/first-block-at-genesis-time", "the first block (stamped with the unchanged genesis_time) after import at %d panics: %s", w.Ref.Height, trunc(p, 300))
+		}
 		return
 	}
 	ctx := n.App.BaseApp.NewContext(false, hdr)
 	// (a) pending orders: rejected only for a reason the statement knows
 	e := w.M.Ent
 	for _, id := range sortedU64(e.Orders) {
+		if prop != "C15" {
+			break
+		}
 		o := e.Orders[id]
 		if o.Status != 1 {
 			continue
@@ -220,10 +230,83 @@ func (w *World) importKeepingGenesisTime(raw []byte, height int64) {
 		s2, _ := n.App.StreamKeeper.GetStream(c2, ra, sa)
 		w.Probe("c15.claim-in-first-block-at-genesis-time")
 		if !s1.Deposit.IsEqual(s2.Deposit) {
-			w.Violate("C15", "C15/same-tx-different-effect/claim-after-first-block-at-genesis-time", "stream %s->%s: a claim at %s leaves %s when the receiver also claimed in the chain's first block (stamped with the unchanged genesis_time), %s otherwise", st.Sender, st.Receiver, later.Format(time.RFC3339), s1.Deposit, s2.Deposit)
+			w.Violate(prop, prop+"/same-tx-different-effect/claim-after-first-block-at-genesis-time", "stream %s->%s: a claim at %s leaves %s when the receiver also claimed in the chain's first block (stamped with the unchanged genesis_time), %s otherwise", st.Sender, st.Receiver, later.Format(time.RFC3339), s1.Deposit, s2.Deposit)
+			break
+		}
+		// (c) the sender changes the flow rate in that first block: the settlement it implies releases
+		// nothing (no funded second has passed since the previous release), and the next claim, made
+		// before the newly advertised deposit-zero time, pays the new rate for the whole seconds since
+		// the previous release - which lies before the export, not at the genesis time
+		s0, ok0 := n.App.StreamKeeper.GetStream(ctx, ra, sa)
+		if !ok0 || !s0.LastOutflowTime.After(gt) || !s0.Deposit.Amount.IsPositive() {
+			continue
+		}
+		newRate := int64(1)
+		if s0.FlowRate == 1 {
+			newRate = 2
+		}
+		upd := &streamtypes.MsgUpdateFlowRate{Sender: st.Sender, Receiver: st.Receiver, FlowRate: newRate}
+		c3, _ := ctx.CacheContext()
+		var uerr error
+		if p, _ := safely(func() {
+			_, uerr = router.Handler(upd)(c3.WithBlockTime(gt).WithEventManager(sdk.NewEventManager()), upd)
+		}); p != "" || uerr != nil {
+			continue // whether the update must succeed is not this oracle's subject
+		}
+		s3, _ := n.App.StreamKeeper.GetStream(c3, ra, sa)
+		if !s3.Deposit.IsEqual(s0.Deposit) {
+			w.Violate(prop, prop+"/release-without-funded-time/rate-change-in-first-block-at-genesis-time", "stream %s->%s: a flow-rate change in the chain's first block (stamped with the unchanged genesis_time %d, before the previous release at %s) released funds: deposit %s -> %s", st.Sender, st.Receiver, GenesisTS, s0.LastOutflowTime.UTC().Format(time.RFC3339), s0.Deposit, s3.Deposit)
+			break
+		}
+		span := s3.DepositZeroTime.Sub(s0.LastOutflowTime)
+		if span < 4*time.Second {
+			continue
+		}
+		at := s0.LastOutflowTime.Add(span / 2)
+		secs := int64(at.Sub(s0.LastOutflowTime) / time.Second)
+		if secs < 1 {
+			continue
+		}
+		want := new(big.Int).Mul(big.NewInt(secs), big.NewInt(newRate))
+		if want.Cmp(s3.Deposit.Amount.BigInt()) > 0 {
+			want = s3.Deposit.Amount.BigInt()
+		}
+		var cerr error
+		if p, _ := safely(func() {
+			_, cerr = router.Handler(claim)(c3.WithBlockTime(at).WithEventManager(sdk.NewEventManager()), claim)
+		}); p != "" || cerr != nil {
+			continue
+		}
+		s4, _ := n.App.StreamKeeper.GetStream(c3, ra, sa)
+		paid := new(big.Int).Sub(s3.Deposit.Amount.BigInt(), s4.Deposit.Amount.BigInt())
+		w.Probe("c15.rate-change-in-first-block-at-genesis-time")
+		if paid.Cmp(want) != 0 {
+			w.Violate(prop, prop+"/release-differs-from-rate/claim-after-rate-change-in-first-block-at-genesis-time", "stream %s->%s: previous release %s, flow rate changed to %d/s in the chain's first block (unchanged genesis_time %d), advertised deposit-zero time %s; a claim at %s (%d whole seconds after the previous release) released %s, the agreed rate gives %s", st.Sender, st.Receiver, s0.LastOutflowTime.UTC().Format(time.RFC3339), newRate, GenesisTS, s3.DepositZeroTime.UTC().Format(time.RFC3339), at.UTC().Format(time.RFC3339), secs, paid, want)
 			break
 		}
 	}
+}
+
+// importForC11: C11's release arithmetic also has to hold on a chain restarted from an export whose
+// first block carries the unchanged genesis time (block time earlier than every stream's last release).
+func (w *World) importForC11() {
+	var raw []byte
+	var height int64
+	if p, _ := safely(func() {
+		exp := &Node{Idx: 104, Cfg: DefaultRefCfg(), DB: w.Ref.DB, AppOpts: appOptsOf(&w.T.Knobs)}
+		exp.Open()
+		if mod, pp := exportPreflight(exp); mod != "" {
+			panic("genesis export of module " + mod + " panics: " + pp)
+		}
+		e, err := exp.App.ExportAppStateAndValidators(false, nil, nil)
+		if err != nil {
+			panic(err)
+		}
+		raw, height = e.AppState, e.Height
+	}); p != "" {
+		return
+	}
+	w.importAtGenesisTime(raw, height, "C11")
 }
 
 // importLater: a chain is restarted from an export some time after the export was taken (the
@@ -252,6 +335,9 @@ func (w *World) takeFork() {
 	}
 	if w.armedShadow && w.shadow == nil {
 		w.takeShadow()
+	}
+	if w.PropOverride == "C11" {
+		w.importForC11()
 	}
 	if !w.armedC15 || w.Fork != nil {
 		return
